@@ -3,7 +3,7 @@
 import json, os
 V = os.path.dirname(os.path.dirname(os.path.abspath(__file__)))
 props = [json.loads(l) for l in open(os.path.join(V, 'properties.jsonl'))]
-NOTE = ("Trusted: Coq 8.16.1 kernel (full .vo build, vm_compute, no native_compute), translator/py2coq.py where used, "
+NOTE = ("Trusted: Coq 8.16.1 kernel (full .vo build, vm_compute, no native_compute), translator/py2coq.py + translator/symex.py + translator/mktie.py where used, "
         "the correspondence harness (DSL executor, Gallina printer, decoder, tolerances) and the hand transcription of "
         "the Python into Gallina, which the correspondence run keeps honest; theorems are over exact rationals with "
         "round() erased (DESIGN.md 1.2, 6). All property theorems print 'Closed under the global context' unless the "
@@ -11,9 +11,10 @@ NOTE = ("Trusted: Coq 8.16.1 kernel (full .vo build, vm_compute, no native_compu
 CLAIMED = {
  'C06': dict(text="Theorems (Coq, all substances/amounts/prefixes/unit pairs): convert_from multiplies by exactly the chemistry factor "
              "(48 cells x prefixes), zero cells, rejection, linearity, composition, round trip, storage conversions inverse. "
-             "The branch table and the prefix table are regenerated from the source on every run by the translator and proved "
-             "equal to the model; the whole table is also enumerated against the implementation.",
-             technique="Coq proof over Q; source-to-Gallina translator re-proved each run; exhaustive table correspondence",
+             "The branch table and the prefix table are regenerated from the source on every run two ways -- by the ast translator "
+             "and by executing convert_from / convert_to_storage / convert_from_storage on symbolic operands (4800 + 400 cells) -- and "
+             "each available extraction is proved equal to the model; the whole table is also enumerated against the implementation.",
+             technique="Coq proof over Q; source-to-Gallina translator and symbolic execution of the source, both re-proved each run; exhaustive table correspondence",
              design="5 C06"),
  'C01': dict(text="Theorems (Coq, all contents, amounts, units, prefixes, plate sizes, regions): every substance is conserved by "
              "container->container, container->n wells, n wells->container and plate->plate transfers (one-to-many, many-to-one, "
@@ -177,7 +178,7 @@ m = {"version": 1, "setup_cmd": "./setup.sh",
                "baseline_off_cmd": "cd /repo && /venv/bin/python -m pytest -ra -q -p no:cacheprovider --timeout=900 --continue-on-collection-errors",
                "source_commits": [], "add_only": True},
      "engines": [{"name": "coq-model", "path": "coq/", "serves_properties": sorted(CLAIMED), "kind_free_text": "hand-written Gallina model over Q and its theorems; Props/Cxx.v holds the property statements"},
-                 {"name": "py2coq", "path": "translator/", "serves_properties": [p for p in ("C06", "C11", "C14", "C16") if p in CLAIMED], "kind_free_text": "Python-ast to Gallina translator for the branch-table kernels, regenerated every run"},
+                 {"name": "py2coq", "path": "translator/", "serves_properties": [p for p in ("C06", "C11", "C14", "C16") if p in CLAIMED], "kind_free_text": "Python-ast to Gallina translator plus symbolic execution / probing of the source (symex.py) for the branch-table kernels, both regenerated and re-proved every run"},
                  {"name": "correspondence", "path": "harness/", "serves_properties": sorted(CLAIMED), "kind_free_text": "seeded generators; the same programs run on the implementation and (vm_compute) on the model; property oracle on the implementation"}],
      "checks": checks,
      "notes": "See DESIGN.md. ./check Cxx --tier quick|thorough; fixes to /repo are 'fix:' commits listed in KNOWN_FINDINGS.txt.",
